@@ -202,7 +202,7 @@ def cache_key(u, defs, extra):
     h = hashlib.sha256()
     h.update(p.stdout)
     h.update(json.dumps(extra, sort_keys=True).encode())
-    h.update(b"cbmc-6.11.0 driver-v3")
+    h.update(b"cbmc-6.11.0 driver-v4")
     return h.hexdigest()
 
 
@@ -216,21 +216,53 @@ def _job(u, case, tier, canary, wd, res):
                                                          "object_bits", "solver", "extra_cbmc", "malloc_may_fail", "leak_check",
                                                          "loop_contracts", "remove_function_pointers")})
         cf_ = os.path.join(CACHE, (key or "x") + ".json")
-        if key and os.path.exists(cf_):
-            try:
-                c = json.load(open(cf_))
-                res.update(c)
-                res["cached"] = True
-                res["wd"] = wd
-                return
-            except Exception:
-                pass
-    _job_run(u, case, tier, canary, wd, res, defs)
-    if key and res["status"] in ("ok", "vacuous") and not any(p["status"] != "SUCCESS" for p in res["props"] if not canary):
+
+        def from_cache():
+            if key and os.path.exists(cf_):
+                try:
+                    c = json.load(open(cf_))
+                    res.update(c)
+                    res["cached"] = True
+                    res["wd"] = wd
+                    return True
+                except Exception:
+                    return False
+            return False
+        if from_cache():
+            return
+    import fcntl
+    os.makedirs(CACHE, exist_ok=True)
+    # one computation per distinct job across concurrently running checks (properties share units) ...
+    lk = open(os.path.join(CACHE, (key or "nokey-%d" % os.getpid()) + ".lock"), "w")
+    fcntl.flock(lk, fcntl.LOCK_EX)
+    slot = None
+    try:
+        if key and not os.environ.get("VERIF_NO_CACHE") and from_cache():
+            return
+        # ... and a machine-wide cap on heavy jobs (expected memory >= 4 GB), whoever started them
+        if u["weight_gb"] >= 4:
+            nslots = max(1, MEM_BUDGET_GB // int(u["weight_gb"]))
+            while slot is None:
+                for i in range(nslots):
+                    f = open(os.path.join(CACHE, "heavy-slot-%d" % i), "w")
+                    try:
+                        fcntl.flock(f, fcntl.LOCK_EX | fcntl.LOCK_NB)
+                        slot = f
+                        break
+                    except OSError:
+                        f.close()
+                if slot is None:
+                    time.sleep(2)
+        _job_run(u, case, tier, canary, wd, res, defs)
+    finally:
+        if slot is not None:
+            slot.close()
+        fcntl.flock(lk, fcntl.LOCK_UN)
+        lk.close()
+    if key and res["status"] in ("ok", "vacuous", "fail"):
         os.makedirs(CACHE, exist_ok=True)
         tmp = os.path.join(CACHE, "%s.%d.tmp" % (key, os.getpid()))
         keep = {k: res[k] for k in ("status", "props", "solver_s", "checker_cmd") if k in res}
-        keep["props"] = [{k: v for k, v in p.items() if k != "trace"} for p in keep["props"]]
         json.dump(keep, open(tmp, "w"))
         os.replace(tmp, os.path.join(CACHE, key + ".json"))
 
@@ -321,7 +353,8 @@ def _job_run(u, case, tier, canary, wd, res, defs):
             else:
                 pr["label"] = "post%d" % k
         if r["status"] == "FAILURE" and "trace" in r:
-            pr["trace"] = r["trace"]
+            pr["ctrace"] = compact_trace(r["trace"])
+            pr["input_hex"] = trace_inputs(r["trace"]) if u.get("native_replay") else None
         props.append(pr)
     res["props"] = props
     if not props:
@@ -516,10 +549,10 @@ def write_replay(pid, u, case, tier, p, wd):
            "function": u["function"], "source": u["source"], "wrapper": os.path.relpath(u["path"], VERIF),
            "failed_obligation": key, "cbmc_property": p["id"], "cbmc_description": p["desc"],
            "location": p["loc"], "input_hex": None, "native": None,
-           "verifier_trace": compact_trace(p.get("trace", []))}
+           "verifier_trace": p.get("ctrace", [])}
     reproduced = False
-    if u.get("native_replay") and p.get("trace"):
-        hx = trace_inputs(p["trace"])
+    if u.get("native_replay") and p.get("input_hex"):
+        hx = p["input_hex"]
         rec["input_hex"] = hx
         if hx is not None:
             nat = native_replay(u, case, tier, hx, wd)
